@@ -470,9 +470,8 @@ K_REFRESH = dict(name="K-core::screen", package="rustzx-core", features="full",
                  assumptions=CORE_ASSUME + ["libm::sqrt stubbed while constructing the controller",
                      "ram_page_data replaced by 4-byte stand-in pages and ZXScreen::update by a call recorder: the harness proves the call structure of refresh (every byte of banks 0 / 5 and 7 is forwarded with its bank and offset) for all page contents and paging states; the loop is parametric in the slice length; update's effect is its Verus contract"])
 
-K_VTXLOAD = dict(name="K-vtx::load", package="vtx", harnesses=["vtx_load_header", "vtx_load_strings"], jobs=2, timeout=2400,
-                 bounded={"vtx_load_header": "7 enumerated header variants (control bytes concrete, stored bytes symbolic); declared frame size 0 / rejected (LH5 payload excluded)",
-                          "vtx_load_strings": "7 enumerated strings blocks + 5 header truncations behind a well-formed header"},
+K_VTXLOAD = dict(name="K-vtx::load", package="vtx", harnesses=["vtx_load_header"], jobs=1, timeout=1200,
+                 bounded={"vtx_load_header": "5 invalid header variants, 5 header truncations, valid header + end of file (control bytes concrete, stored bytes symbolic); strings-block contents and LH5 payload NOT covered (CBMC did not finish)"},
                  functions={"*": ["Vtx::load (header, strings block)"]},
                  assumptions=["delharc LH5 decoder not verified"])
 
@@ -500,7 +499,7 @@ PROPS = {
     ),
     "C15": dict(
         level="proof",
-        claim="Totality obligations: Verus proves termination and absence of panics/overflow/out-of-range access (its default obligations) for the host-trait loops read_exact/write_all under ANY host read/write behaviour, the TAP block reader and pulse state machine for all images, frame_registers, the VTX transposition, BlocksCount, ZXColor::from_bits / set_regs preconditions; the SZX block handlers and scr::load never index out of range for any block content of the checked minimal size (scan: szx::load checks those sizes before dispatch); Kani proves that sna::load returns Ok/Err for every header, reported size class, model combination and an injected asset failure at any call, and (BOUNDED) the same for one-block SZX files and VTX headers with enumerated strings blocks; every K-z80 group additionally proves Z80::emulate free of panics for every CPU state and bus answer (thorough tier).",
+        claim="Totality obligations: Verus proves termination and absence of panics/overflow/out-of-range access (its default obligations) for the host-trait loops read_exact/write_all under ANY host read/write behaviour, the TAP block reader and pulse state machine for all images, frame_registers, the VTX transposition, BlocksCount, ZXColor::from_bits / set_regs preconditions; the SZX block handlers and scr::load never index out of range for any block content of the checked minimal size (scan: szx::load checks those sizes before dispatch); Kani proves that sna::load returns Ok/Err for every header, reported size class, model combination and an injected asset failure at any call, and (BOUNDED) the same for one-block SZX files and VTX header rejection / truncation / end-of-file cases; every K-z80 group additionally proves Z80::emulate free of panics for every CPU state and bus answer (thorough tier).",
         note="BOUNDED parts are reported under bounded_stand_ins. Third-party decoders (miniz_oxide, flate2/GzipAsset, delharc) are out of reach and assumed. Memory proportionality is the explicit size checks now in the loaders (SZX block size <= rest of file, VTX frame size cap), checked by the harness assertions. Twelve loader defects repaired (see known_findings.json fixed entries).",
         verus=["hostio", "tape", "vtx", "screen", "scr", "szx"],
         scans=[scan_szx_min_sizes],
